@@ -108,6 +108,14 @@ func init() {
 			s.Probes, s.MaxResync = true, 1
 			add(s)
 		}
+		{
+			// A task reaped for its pending timeout finishes on its own during graceful deletion and then goes away.
+			lf := jobBase("none-att2-pendingtimeout-latefinish")
+			lf.MaxAttempts, lf.MaxFail = 2, 1
+			lf.PendingTimeoutJob = i64(30)
+			lf.PodActions = []string{"run", "succeed", "fail", "sched", "latefinish"}
+			add(lf)
+		}
 		if thorough {
 			s := jobBase("count3-AllSuccessful-att2-delay0")
 			s.Parallelism, s.Strategy, s.MaxAttempts, s.MaxFail = "count3", "AllSuccessful", 2, 2
